@@ -326,6 +326,17 @@ def cli_partition(rec, rnd, tmp, k):
     parts = [[] for _ in range(nparts)]
     for r in rows:
         parts[rnd.randrange(nparts)].append(r)
+    # every file also writes dates its own way (stated in its own format string); two files may spell DIFFERENT days identically (04/03/2025)
+    dconvs = [rnd.choice(['iso', 'iso', 'dmy', 'mdy']) for _ in range(nparts)]
+    if rnd.random() < .5:
+        dconvs[0], dconvs[1] = rnd.sample(['dmy', 'mdy'], 2)
+        amb = ['2025-03-04,NETFLIX 0,12.50', '2025-04-03,COSTCO 1,99.99', '2025-01-12,UBER 2,20.00', '2025-12-01,UBER 2,21.00']
+        rows += amb
+        for r in amb:
+            iso = r.split(',')[0]
+            parts[0 if (dconvs[0] == 'dmy') == (iso in ('2025-03-04', '2025-01-12')) else 1].append(r)
+        rec.count('cli_partitions_with_identically_spelled_different_days')
+    dfmt = {'iso': '%Y-%m-%d', 'dmy': '%d/%m/%Y', 'mdy': '%m/%d/%Y'}
     fault_at = rnd.randrange(nparts + 1)
     fault = rnd.choice(['missing', 'invalid-utf8', 'none'])
     # every file of the split keeps the same format string but its own conventions (delimiter, header line, sign), stated in its source entry
@@ -340,13 +351,15 @@ def cli_partition(rec, rnd, tmp, k):
         if variant == 'one':
             with open(os.path.join(root, 'data', 'all.csv'), 'w') as f:
                 f.write('Date,Description,Amount\n' + '\n'.join(rows) + '\n')
-            srcs.append(('All', 'data/all.csv', ''))
+            srcs.append(('All', 'data/all.csv', '', '%Y-%m-%d'))
         else:
             for j, prt in enumerate(parts):
                 if j == fault_at and fault != 'none':
-                    srcs.append(('Broken', 'data/broken.csv', ''))
+                    srcs.append(('Broken', 'data/broken.csv', '', '%Y-%m-%d'))
                 conv = convs[j]
                 lines = list(prt)
+                if dconvs[j] != 'iso':
+                    lines = [','.join([datetime.strptime(l.split(',')[0], '%Y-%m-%d').strftime(dfmt[dconvs[j]])] + l.split(',')[1:]) for l in lines]
                 if conv == 'neg':           # this file writes charges as negatives; its source entry says negate_amount: true
                     lines = [','.join(l.split(',')[:2] + ['%.2f' % -float(l.split(',')[2])]) for l in lines]
                 if conv == 'semi':
@@ -355,15 +368,15 @@ def cli_partition(rec, rnd, tmp, k):
                 with open(os.path.join(root, 'data', 's%d.csv' % j), 'w') as f:
                     f.write(hdr + '\n'.join(lines) + ('\n' if lines else ''))
                 srcs.append(('Checking' if same_name else 'S%d' % j, 'data/s%d.csv' % j, {'plain': '', 'semi': '    delimiter: ";"\n', 'nohdr': '    has_header: false\n',
-                                                             'neg': '    negate_amount: true\n'}[conv]))
+                                                             'neg': '    negate_amount: true\n'}[conv], dfmt[dconvs[j]]))
             if fault_at == nparts and fault != 'none':
-                srcs.append(('Broken', 'data/broken.csv', ''))
+                srcs.append(('Broken', 'data/broken.csv', '', '%Y-%m-%d'))
             if fault == 'invalid-utf8':
                 with open(os.path.join(root, 'data', 'broken.csv'), 'wb') as f:
                     f.write(b'Date,Description,Amount\n2025-01-01,caf\xe9 \xff,5.00\n')
         with open(os.path.join(root, 'config', 'settings.yaml'), 'w') as f:
             f.write('year: 2025\nmerchants_file: config/merchants.rules\ndata_sources:\n' + ''.join(
-                '  - name: %s\n    file: %s\n    format: "{date:%%Y-%%m-%%d},{description},{amount}"\n%s' % s_ for s_ in srcs))
+                '  - name: %s\n    file: %s\n    format: "{date:%s},{description},{amount}"\n%s' % (s_[0], s_[1], s_[3], s_[2]) for s_ in srcs))
         with open(os.path.join(root, 'config', 'merchants.rules'), 'w') as f:
             f.write(rules)
         p = B.tally(root, 'up', os.path.join(root, 'config'), '--format', 'json', '-q')
@@ -373,7 +386,7 @@ def cli_partition(rec, rnd, tmp, k):
         else:
             try:
                 js = B.json_from_stdout(p.stdout)
-                results[variant] = ('ok', {kk: v for kk, v in js.get('summary', {}).items()},
+                results[variant] = ('ok', dict({kk: v for kk, v in js.get('summary', {}).items()}, **{'mo:' + mk: mv.get('total') for mk, mv in (js.get('by_month') or {}).items()}),
                                     sorted((m['name'], round(m['total'], 2), m['count']) for m in js.get('merchants', [])))   # (the category LABEL of a merchant fed by two rules is not a figure)
             except Exception as e:
                 results[variant] = ('unparsable', str(e)[:100])
@@ -391,7 +404,7 @@ def cli_partition(rec, rnd, tmp, k):
                     pass
         shutil.rmtree(root, ignore_errors=True)
     rec.count('cli_partition_checks')
-    case = {'kind': 'cli-partition', 'rows': rows, 'parts': parts, 'fault': fault, 'fault_at': fault_at, 'conventions': convs, 'same_name': same_name}
+    case = {'kind': 'cli-partition', 'rows': rows, 'parts': parts, 'fault': fault, 'fault_at': fault_at, 'conventions': convs, 'date_conventions': dconvs, 'same_name': same_name}
     a, b = results['one'], results['split']
     if 'explain' in results:
         x = results['explain']
